@@ -24,7 +24,16 @@ Slots == <<
   [n |-> "meta",      t |-> "Title: @\n\nbody\n",                    v |-> TRUE],     \* metadata values are not Markdown: characters are written as themselves
   [n |-> "codespan",  t |-> "a `@` b\n",                             v |-> TRUE],
   [n |-> "codeblock", t |-> "```\n@\n```\n",                         v |-> TRUE],
-  [n |-> "indented",  t |-> "    @\n",                               v |-> TRUE] >>
+  [n |-> "indented",  t |-> "    @\n",                               v |-> TRUE],
+  \* text that reaches the output through a second emission site
+  [n |-> "caption",   t |-> "| h |\n|---|\n| c |\n[@]\n",             v |-> FALSE],
+  [n |-> "dterm",     t |-> "@\n: definition\n",                     v |-> FALSE],
+  [n |-> "tochead",   t |-> "{{TOC}}\n\n# @ #\n\ntext\n",             v |-> FALSE],
+  [n |-> "citation",  t |-> "x[#c]\n\n[#c]: @\n",                     v |-> FALSE],
+  [n |-> "glossary",  t |-> "x[?term]\n\n[?term]: @\n",               v |-> FALSE],
+  [n |-> "abbrev",    t |-> "[>ab]: @\n\nab here\n",                  v |-> TRUE],      \* an abbreviation's expansion is taken literally
+  [n |-> "inlinenote", t |-> "x[^@] y\n",                             v |-> FALSE],
+  [n |-> "emph",      t |-> "*@*\n",                                  v |-> FALSE] >>
 \* ---- characters: name, Markdown spelling in text, in verbatim -------------------------------------------------------
 Chars == <<
   [n |-> "amp", c |-> "&", s |-> "&"], [n |-> "lt", c |-> "<", s |-> "<"], [n |-> "gt", c |-> ">", s |-> ">"], [n |-> "quot", c |-> "\"", s |-> "\""],
